@@ -6,6 +6,9 @@ import (
 	"fmt"
 	"math/rand"
 	"reflect"
+	"sort"
+	"strings"
+	"sync"
 	"sync/atomic"
 	"time"
 
@@ -16,7 +19,7 @@ import (
 
 // NOp is one operation of a Notifier program.
 type NOp struct {
-	K   string `json:"k"` // sub unsub pub recv cancel
+	K   string `json:"k"` // sub unsub pub recv cancel | subc (SubscribeCancel) cancelsub (call its cancel func)
 	Key string `json:"key,omitempty"`
 	T   int    `json:"t,omitempty"`
 	Ctx int    `json:"ctx,omitempty"`
@@ -38,6 +41,17 @@ type notExec struct {
 	cancels []context.CancelFunc
 	stop    chan struct{}
 	pubSeq  atomic.Int32
+	mu      sync.Mutex
+	subc    map[string]subcInfo // key/target -> SubscribeCancel registration
+}
+
+// context ids of the contexts SubscribeCancel derives: unique per process, so that a trace spec can tell them apart
+var subcSeq atomic.Int32
+
+type subcInfo struct {
+	id     int // context id of the derived context (10, 11, ...)
+	parent int
+	cancel context.CancelFunc
 }
 
 func (x *notExec) ctx(i int) context.Context {
@@ -69,7 +83,7 @@ func (x *notExec) do(g string, op NOp) {
 	switch op.K {
 	case "sub":
 		ctl.Gate("drv.call")
-		r.Call(g, "Sub", "key", op.Key, "t", op.T, "ctx", op.Ctx)
+		r.Call(g, "Sub", "key", op.Key, "t", op.T, "ctx", op.Ctx, "auto", false)
 		p := safeCall(func() {
 			if op.Ctx == 0 {
 				x.n.Subscribe(op.Key, x.targets[op.T])
@@ -78,6 +92,47 @@ func (x *notExec) do(g string, op NOp) {
 			}
 		})
 		r.Ret(g, "Sub", "r", cls(nil, p), "msg", p)
+	case "subc":
+		// SubscribeCancel: the library derives a context and unsubscribes by itself once it is cancelled
+		k := fmt.Sprintf("%s/%d", op.Key, op.T)
+		x.mu.Lock()
+		if _, dup := x.subc[k]; dup {
+			x.mu.Unlock()
+			return
+		}
+		id := int(subcSeq.Add(1)) + 9
+		x.subc[k] = subcInfo{id: id, parent: op.Ctx}
+		x.mu.Unlock()
+		ctl.Gate("drv.call")
+		r.Call(g, "Sub", "key", op.Key, "t", op.T, "ctx", id, "auto", true, "parent", op.Ctx)
+		var cancel context.CancelFunc
+		p := safeCall(func() {
+			var parent context.Context
+			if op.Ctx != 0 {
+				parent = x.ctx(op.Ctx)
+			}
+			cancel = x.n.SubscribeCancel(parent, op.Key, x.targets[op.T])
+		})
+		x.mu.Lock()
+		if p == "" {
+			x.subc[k] = subcInfo{id: id, parent: op.Ctx, cancel: cancel}
+		} else {
+			delete(x.subc, k)
+		}
+		x.mu.Unlock()
+		r.Ret(g, "Sub", "r", cls(nil, p), "msg", p)
+	case "cancelsub":
+		k := fmt.Sprintf("%s/%d", op.Key, op.T)
+		x.mu.Lock()
+		info, ok := x.subc[k]
+		x.mu.Unlock()
+		if !ok || info.cancel == nil {
+			return
+		}
+		ctl.Gate("drv.call")
+		r.Add(rec.Ev{"ev": "cancel", "g": g, "ctx": info.id})
+		info.cancel()
+		r.Add(rec.Ev{"ev": "cancelled", "g": g, "ctx": info.id})
 	case "unsub":
 		ctl.Gate("drv.call")
 		r.Call(g, "Unsub", "key", op.Key, "t", op.T)
@@ -113,6 +168,8 @@ func (x *notExec) do(g string, op NOp) {
 			return
 		}
 		ctl.Gate("drv.call")
+		// (contexts SubscribeCancel derived from this one die with it: the trace spec works that out from the
+		// "parent" field of the call records)
 		r.Add(rec.Ev{"ev": "cancel", "g": g, "ctx": op.Ctx})
 		x.cancels[op.Ctx]()
 		r.Add(rec.Ev{"ev": "cancelled", "g": g, "ctx": op.Ctx})
@@ -120,6 +177,23 @@ func (x *notExec) do(g string, op NOp) {
 }
 
 // recv performs one receive on target t (or returns when the harness stops receivers); reports whether it was stopped
+// cancelSubcs calls the cancel function of every SubscribeCancel registration made so far
+func (x *notExec) cancelSubcs(g string) {
+	x.mu.Lock()
+	var ks []string
+	for k := range x.subc {
+		ks = append(ks, k)
+	}
+	x.mu.Unlock()
+	sort.Strings(ks)
+	for _, k := range ks {
+		var key string
+		var t int
+		fmt.Sscanf(strings.Replace(k, "/", " ", 1), "%s %d", &key, &t)
+		x.do(g, NOp{K: "cancelsub", Key: key, T: t})
+	}
+}
+
 func (x *notExec) recv(g string, t int) (stopped bool) {
 	r := x.e.R
 	ctl.Gate("drv.call")
@@ -173,6 +247,9 @@ func genNotScenario(rng *rand.Rand, profile, mode string) any {
 			switch {
 			case role == 0 && r < 70:
 				op = NOp{K: "pub", Key: keys[rng.Intn(3)%2], VT: vts[rng.Intn(len(vts))]}
+				if rng.Intn(5) == 0 {
+					op.Key = "c"
+				}
 				if rng.Intn(3) == 0 {
 					op.Ctx = 1 + rng.Intn(sc.NCtx)
 				}
@@ -180,10 +257,23 @@ func genNotScenario(rng *rand.Rand, profile, mode string) any {
 				op = NOp{K: "recv", T: 1 + rng.Intn(5)}
 			case r < 72:
 				op = NOp{K: "cancel", Ctx: 1 + rng.Intn(sc.NCtx)}
-			case r < 86:
+			case r < 80:
 				op = NOp{K: "sub", Key: keys[rng.Intn(3)%2], T: 1 + rng.Intn(5)}
 				if rng.Intn(2) == 0 {
 					op.Ctx = 1 + rng.Intn(sc.NCtx)
+				}
+			case r < 86:
+				// (its own key: the library's goroutine panics - and kills the process - when somebody else
+				// unsubscribes a SubscribeCancel registration first, which is misuse, so "unsub" never touches it)
+				op = NOp{K: "subc", Key: "c", T: 1 + rng.Intn(5)}
+				if rng.Intn(2) == 0 {
+					op.Ctx = 1 + rng.Intn(sc.NCtx)
+				}
+				ops = append(ops, op)
+				op = NOp{K: "cancelsub", Key: op.Key, T: op.T}
+				if role != 0 && rng.Intn(2) == 0 {
+					// (publishers never block in a receive: they must be finished before the epilogue's drain)
+					op = NOp{K: "recv", T: op.T}
 				}
 			default:
 				op = NOp{K: "unsub", Key: keys[rng.Intn(3)%2], T: 1 + rng.Intn(5)}
@@ -197,7 +287,7 @@ func genNotScenario(rng *rand.Rand, profile, mode string) any {
 
 func runNotExec(execID int, sci any, e *Env) []rec.Ev {
 	sc := sci.(*NScenario)
-	x := &notExec{e: e, n: new(bigbuff.Notifier), stop: make(chan struct{})}
+	x := &notExec{e: e, n: new(bigbuff.Notifier), stop: make(chan struct{}), subc: map[string]subcInfo{}}
 	x.targets = []any{nil, make(chan int), make(chan any, 1), make(chan *int), make(chan string), make(chan any)}
 	x.ctxs = make([]context.Context, sc.NCtx+1)
 	x.cancels = make([]context.CancelFunc, sc.NCtx+1)
@@ -229,6 +319,7 @@ func runNotExec(execID int, sci any, e *Env) []rec.Ev {
 			for i := 1; i <= sc.NCtx; i++ {
 				x.do(g, NOp{K: "cancel", Ctx: i})
 			}
+			x.cancelSubcs(g)
 		})
 		e.WaitTerminal()
 	}
@@ -250,6 +341,13 @@ func runNotExec(execID int, sci any, e *Env) []rec.Ev {
 		e.WaitTerminal()
 		quiescent(3)
 	}
+	if e.Infra == "" && !e.Res.Diverged {
+		// epilogue 4: drivers that were blocked in a receive until the stop may have made SubscribeCancel
+		// registrations after epilogue 1: every context handed to the library is cancelled before the census
+		e.Spawn("E4", func(g string) { x.cancelSubcs(g) })
+		e.WaitTerminal()
+		quiescent(4)
+	}
 	select {
 	case <-x.stop:
 	default:
@@ -259,8 +357,15 @@ func runNotExec(execID int, sci any, e *Env) []rec.Ev {
 		x.cancels[i]()
 	}
 	left := e.End(3*time.Second, harnessOrLib)
+	nlib := 0
+	for _, g := range left {
+		if libFrame(g) && !containsSpawn(g) {
+			nlib++
+		}
+	}
+	e.St.Leaks += nlib
 	_, nsubs := bigbuff.VerifNotifierSize(x.n)
-	e.R.Add(rec.Ev{"ev": "final", "left": len(left), "returned": e.DriversDone(), "nsubs": nsubs})
+	e.R.Add(rec.Ev{"ev": "final", "left": len(left), "leaked": nlib, "returned": e.DriversDone(), "nsubs": nsubs})
 	return e.R.Events()
 }
 
